@@ -351,4 +351,25 @@ theorem run_denotes (e : Expr K) : ∀ s, e.Lits Valid → e.value = some s → 
         · exact List.mem_append_right _ ((canon_perm hf.2.1).symm.subset hk)
       exact (h4 kv hmem).imp id fun h0 => num_ne_nil_of_val hq (by rw [eq]; exact h0)
 
+/-! ### `linearize` on integer delays -/
+
+theorem toLaurent_perm {p q : MPoly K} (h : p.Perm q) : toLaurent p = toLaurent q :=
+  (h.map _).sum_eq
+
+theorem wf_perm {p q : MPoly K} (h : p.Perm q) (hp : WF p) : WF q :=
+  ⟨(h.map _).nodup_iff.1 hp.1, fun kv hkv => hp.2 kv (h.symm.subset hkv)⟩
+
+theorem linearize_den {f : ZF K} (hf : Valid f) : Den (linearize f) (val f) := by
+  have hpn : (sortAsc f.num).Perm f.num := List.mergeSort_perm _ _
+  have hpd : (sortAsc f.den).Perm f.den := List.mergeSort_perm _ _
+  have wn : WF (sortAsc f.num) := wf_perm hpn.symm hf.1
+  have wd : WF (sortAsc f.den) := wf_perm hpd.symm hf.2.1
+  have hd0 : sortAsc f.den ≠ [] := by
+    intro e; apply hf.2.2; have := hpd.length_eq; rw [e] at this; exact List.length_eq_zero_iff.1 this.symm
+  unfold linearize ofData
+  rw [mk_of_wf wn, mk_of_wf wd]
+  have h := ofPolys_den wn wd hd0
+  rw [toLaurent_perm hpn, toLaurent_perm hpd] at h
+  exact h
+
 end ALV.C05
